@@ -122,8 +122,10 @@ fn pool(o: Opt, base: &[&str], iri_extra: &[&str], with_pct: bool) -> Vec<String
 
 pub fn scheme() -> BoxedStrategy<String> {
 	prop_oneof![
-		6 => select(sv(&["a", "x", "http", "A", "a1+.-", "data", "urn", "Z9", "b.c", "file", "https", "ftp", "mailto", "ws", "FILE", "javascript", "blob", "about"])),
-		1 => "[A-Za-z][A-Za-z0-9+.-]{0,12}".prop_map(|s| s),
+		18 => select(sv(&["a", "x", "http", "A", "a1+.-", "data", "urn", "Z9", "b.c", "file", "https", "ftp", "mailto", "ws", "FILE", "javascript", "blob", "about"])),
+		3 => "[A-Za-z][A-Za-z0-9+.-]{0,12}".prop_map(|s| s),
+		// long scheme names: code that "knows" how long a scheme can be
+		1 => select(vec![30usize, 63, 64, 65, 126, 127, 128, 129, 255, 256, 257, 300, 1000]).prop_map(|n| format!("s{}", "x-".repeat(n / 2 + 1))[..n].to_string()),
 	]
 	.boxed()
 }
@@ -159,13 +161,15 @@ pub const IPV6_POOL: &[&str] = &[
 	// longer than any IPv6 text (45 bytes), with ':' late in the literal
 	"[v1.aaaaaaaaaaaaaaaaaaaaaaaaaaaaaaaaaaaaaaaaaaaaaaaaaaaaaaaaaaaaaaaa:b]", "[vABCDEF0123456789.x:y:z:aaaaaaaaaaaaaaaaaaaaaaaaaaaaaaaaaaaaaaaaaaaaaa:1:2]",
 	"[aaaa:bbbb:cccc:dddd:eeee:ffff:255.255.255.255]", "[0000:0000:0000:0000:0000:0000:0000:0000]",
+	// IPvFuture with a long all-letter version (no byte <= '@' for 16 bytes) and ':' in the address part
+	"[vABCDEFabcdefAB.x:y]", "[vabcdefABCDEFabcdefABCDEF.a:b:c]",
 ];
 
 /// Hosts that are NOT valid (or valid only in one family) but close to valid ones; used where
 /// inputs are filtered through the library's own constructors.
 pub const NEAR_VALID_HOSTS: &[&str] = &[
 	"[fe80::1%25eth0]", "[::1%eth0]", "[1:2:3:4:5:6:7::8]", "[1:2:3:4:5:6:7::]", "[::256.1.1.1]", "[::1.2.3.4.5]", "[v.a]", "[v1.]", "[::12345]", "[1:2:3:4:5:6:7:8:9]", "[::1]x", "[::1", "::1]",
-	"256.256.256.256", "1.2.3.4.", "h:x", "[::ffff:192.168.1.256]", "[::ffff:01.2.3.4]", "[0:0:0:0:0:0:0:0:0]", "[vG.x]", "[V1.\u{e9}]",
+	"256.256.256.256", "1.2.3.4.", "h:x", "[::ffff:192.168.1.256]", "[::ffff:01.2.3.4]", "[0:0:0:0:0:0:0:0:0]", "[vG.x]", "[V1.\u{e9}]", "[v1.%41]", "[v7.a%2Fb]", "[V1f.x%00]", "[::1%25]", "[1:2:3:4:5:6:7:abc`]",
 ];
 
 pub fn host(o: Opt) -> BoxedStrategy<String> {
@@ -946,8 +950,28 @@ pub fn apply_variant(p: &Parts, v: &Variant) -> Parts {
 pub fn huge_sizes(tier: crate::engine::Tier) -> Vec<usize> {
 	match tier {
 		crate::engine::Tier::Quick => vec![(1 << 20) + 3, 2 << 20],
-		crate::engine::Tier::Thorough => vec![65_537, 1 << 19, (1 << 20) - 1, 1 << 20, (1 << 20) + 3, 2 << 20, 3 << 20, (8 << 20) + 1],
+		crate::engine::Tier::Thorough => vec![65_537, 1 << 19, (1 << 20) - 1, 1 << 20, (1 << 20) + 3, 2 << 20, 3 << 20, (8 << 20) + 1, (17 << 20) + 5, (33 << 20) + 1],
 	}
+}
+
+/// Lengths for "every length" sweeps: all of 0..=dense, every 97th up to `sparse`, and around every
+/// number people pick as a limit (powers of two, 1000s, 2083, 8190, 10 240 k, 65 535) below `sparse`.
+pub fn sweep_lengths(dense: usize, sparse: usize) -> Vec<usize> {
+	let mut v: Vec<usize> = (0..=dense).chain((dense..sparse).step_by(97)).collect();
+	let mut magic: Vec<usize> = vec![2000, 2047, 2048, 2083, 4000, 8000, 8190, 8192, 10_000, 10_240, 16_000, 20_480, 30_000, 30_720, 32_000, 40_960, 50_000, 51_200, 61_440, 64_000, 65_000, 65_535, 65_536, 100_000, 131_072];
+	for k in 5..=20 {
+		magic.push(1 << k);
+	}
+	for m in magic {
+		for d in [m.saturating_sub(4), m.saturating_sub(3), m.saturating_sub(2), m.saturating_sub(1), m, m + 1, m + 2, m + 3, m + 4] {
+			if d <= sparse {
+				v.push(d);
+			}
+		}
+	}
+	v.sort_unstable();
+	v.dedup();
+	v
 }
 
 
@@ -986,12 +1010,54 @@ pub fn with_misaligned<R>(text: &str, f: impl FnOnce(&str, usize) -> R) -> R {
 /// Byte offsets `k < text.len()` (on char boundaries) at which `text[..k]` is accepted by `valid`:
 /// the prefix VIEWS of one buffer that are values of the same type (they share the start address).
 pub fn valid_prefix_cuts(text: &str, max: usize, valid: impl Fn(&str) -> bool) -> Vec<usize> {
-	let mut out: Vec<usize> = text.char_indices().map(|(i, _)| i).filter(|&i| valid(&text[..i])).collect();
-	if out.len() > max {
-		// keep the shortest, the longest and an even spread
-		let n = out.len();
-		out = (0..max).map(|j| out[j * (n - 1) / (max - 1)]).collect();
+	// candidates: the first and last few character boundaries and an even spread (testing every prefix of
+	// every case would make the check quadratic)
+	let bounds: Vec<usize> = text.char_indices().map(|(i, _)| i).collect();
+	let n = bounds.len();
+	let mut cand: Vec<usize> = vec![];
+	for j in 0..n.min(4) {
+		cand.push(bounds[j]);
+		cand.push(bounds[n - 1 - j]);
+	}
+	for j in 1..=10usize {
+		if n > 0 {
+			cand.push(bounds[(j * (n - 1)) / 11]);
+		}
+	}
+	cand.sort_unstable();
+	cand.dedup();
+	let mut out: Vec<usize> = cand.into_iter().filter(|&i| i < text.len() && valid(&text[..i])).collect();
+	if out.len() > max && max >= 2 {
+		let m = out.len();
+		out = (0..max).map(|j| out[j * (m - 1) / (max - 1)]).collect();
 		out.dedup();
 	}
 	out
+}
+
+
+/// Byte-string versions of [`with_misaligned`] and [`with_arena`] (inputs that need not be UTF-8).
+pub fn with_misaligned_bytes<R>(bytes: &[u8], f: impl FnOnce(&[u8], usize) -> R) -> R {
+	let k = 1 + bytes.len() % 7;
+	let mut padded = Vec::with_capacity(bytes.len() + 12);
+	padded.extend_from_slice(&b"~~~~~~~~"[..k]);
+	padded.extend_from_slice(bytes);
+	padded.extend_from_slice(b"~/?");
+	f(&padded[k..k + bytes.len()], k)
+}
+
+thread_local! {
+	static ARENA_B: std::cell::RefCell<std::collections::HashMap<usize, Vec<u8>>> = std::cell::RefCell::new(std::collections::HashMap::new());
+}
+
+pub fn with_arena_bytes<R>(bytes: &[u8], f: impl FnOnce(&[u8]) -> R) -> R {
+	if bytes.len() > (256 << 10) {
+		return f(bytes);
+	}
+	ARENA_B.with(|a| {
+		let mut map = a.borrow_mut();
+		let slot = map.entry(bytes.len()).or_insert_with(|| vec![0u8; bytes.len()]);
+		slot.copy_from_slice(bytes);
+		f(slot)
+	})
 }
